@@ -58,6 +58,29 @@ func init() {
 				stream = append(stream, MStr(strFor(st.V.S[0]+i, st.V.S[1]+int(st.Pos+uint64(i)*31)%5)))
 			}
 		}
+		if len(stream) >= 2 && st.Pos%3 == 0 {
+			// the element provider fails in the middle of the stream (a source that cannot be read any further):
+			// the build, into a scratch storage, must report the failure - not hand out a truncated array
+			failAt := int(st.Pos/3) % len(stream)
+			scratch := w.newStorage(NewSimLedger(), w.Ctl)
+			k := 0
+			fa, ferr := atree.NewArrayFromBatchData(scratch, OwnerAddress(st.Owner), *st.T, func() (atree.Value, error) {
+				if k == failAt {
+					return nil, ErrInjected
+				}
+				v, _ := scalarValueOf(stream[k])
+				k++
+				return v, nil
+			})
+			w.Stats.Inc("fault.stream.error")
+			if ferr == nil {
+				n := uint64(0)
+				if fa != nil {
+					n = fa.Count()
+				}
+				return w.viol("bulk.faulty-stream", "NewArrayFromBatchData whose element provider failed at element %d of %d returned no error (an array of %d elements)", failAt, len(stream), n)
+			}
+		}
 		i := 0
 		a, err := atree.NewArrayFromBatchData(w.Storage, OwnerAddress(st.Owner), *st.T, func() (atree.Value, error) {
 			if i >= len(stream) {
@@ -123,6 +146,28 @@ func init() {
 			// storage: the build may refuse it, but whatever it accepts must be a valid map
 			if v := w.faultyStreamBuild(st, c, sm.Seed(), len(stream), func(j int) (MVal, MVal) { return stream[j].k, stream[j].v }); v != nil {
 				return v
+			}
+		}
+		if len(stream) >= 2 && st.Pos%3 == 1 {
+			failAt := int(st.Pos/3) % len(stream)
+			scratch := w.newStorage(NewSimLedger(), w.Ctl)
+			k := 0
+			fm, ferr := atree.NewMapFromBatchData(scratch, OwnerAddress(src.Owner), w.digBuilder(c), *st.T, w.cmp, w.hip, sm.Seed(), func() (atree.Value, atree.Value, error) {
+				if k == failAt {
+					return nil, nil, ErrInjected
+				}
+				kv := stream[k]
+				k++
+				val, _ := scalarValueOf(kv.v)
+				return w.valueOfKey(kv.k), val, nil
+			})
+			w.Stats.Inc("fault.stream.error")
+			if ferr == nil {
+				n := uint64(0)
+				if fm != nil {
+					n = fm.Count()
+				}
+				return w.viol("bulk.faulty-stream", "NewMapFromBatchData whose element provider failed at entry %d of %d returned no error (a map of %d entries)", failAt, len(stream), n)
 			}
 		}
 		i := 0
